@@ -1,5 +1,6 @@
 import PugModel.Tpl.Exec
 import PugModel.Data.GoVal
+import PugProofs.C11.Path
 /-!
 # C11 — Go data is reachable from templates by lower-camel paths; absent data is empty
 
@@ -60,10 +61,8 @@ theorem C11_absent_prints_nothing (st : St) :
 
 /-! ## whole paths: once data is absent, every further step is absent, and nothing is printed -/
 
-/-- a path of member accesses `recv.n1.n2. ... .nk` -/
-def pathOf (recv : TExpr) : List String → TExpr
-  | [] => recv
-  | n :: rest => pathOf (.field recv n []) rest
+/-! a path of member accesses `recv.n1.n2. ... .nk` is `Pug.Props.C11P.pathOf recv [n1, ..., nk]` -/
+open Pug.Props.C11P (pathOf)
 
 /-- **C11 (absence propagates along any path).** If some prefix of a path evaluates to Nil (a nil pointer, a missing key, an
 out-of-range index), then for EVERY continuation of the path the whole path evaluates to Nil: no error, whatever the names. -/
@@ -107,5 +106,46 @@ theorem C11_absent_path_prints_nothing (names : List String) (fuel : Nat) (recv 
   · have := C11_undefined_propagates names fuel recv st st h
     simp only [walk, bind, StateT.bind, this, Except.bind]
     exact (C11_absent_prints_nothing st).2
+
+/-! ## present paths: what Go reaches is what the template reads
+
+`Reach n g p r` (PugProofs/C11/Path.lean) is the specification: following the member names `p` from the Go value `g` - map
+keys, exported struct fields and niladic methods under their lower-camel names, transparently through pointers and interfaces -
+arrives at `r`. `convertGo` is the model of `pugjs.Convert` the driver uses. -/
+
+open Pug.Data Pug.Props.C11P in
+/-- **C11 (a present path reads the leaf Go reaches).** For EVERY Go data tree `g` (maps, structs with fields and methods,
+pointers, interfaces, slices, scalars - any shape, any size, whatever else it holds), EVERY path `p` that Go can follow to a scalar
+leaf `r`, and every execution state whose heap extends the converted data: the member chain `recv.p1.p2. ... .pk` over the
+converted value evaluates to the converted leaf, with no error and no change of state. -/
+theorem C11_present_path {n : Nat} {g : GoVal} {p : List String} {r : GoVal} (hr : Reach n g p r) (lv : Val)
+    (hl : leafVal r = some lv) (hn : n < goFuel) (h0 : Heap) (st : St) (recv : TExpr) (fuel : Nat)
+    (hrecv : evalExpr (fuel + 1) recv st = .ok ((convertGo g h0).2, st)) (hext : Ext (convertGo g h0).1 st.heap) :
+    evalExpr (fuel + 1 + p.length) (pathOf recv p) st = .ok (lv, st) :=
+  eval_follow p fuel recv st _ lv hrecv (reach_convert hr lv hl goFuel h0 st.heap hn hext)
+
+open Pug.Data Pug.Props.C11P in
+/-- **C11 (… and the escaped code node prints it).** For a string leaf `s` the node `= recv.p1. ... .pk` appends exactly the
+escaped leaf text and changes nothing else. -/
+theorem C11_present_path_prints_leaf {n : Nat} {g : GoVal} {p : List String} {s : String} (hr : Reach n g p (.str s))
+    (hn : n < goFuel) (h0 : Heap) (st : St) (recv : TExpr) (fuel : Nat) (env : Env)
+    (hrecv : evalExpr (fuel + 1) recv st = .ok ((convertGo g h0).2, st)) (hext : Ext (convertGo g h0).1 st.heap) :
+    walk (fuel + 2 + p.length) env (.print (pathOf recv p) true) st = .ok ((), { st with out := st.out ++ pugHtmlEscape s }) := by
+  have := C11_present_path hr (.S s) rfl hn h0 st recv fuel hrecv hext
+  rw [show fuel + 2 + p.length = (fuel + 1 + p.length) + 1 by omega]
+  simp only [walk, bind, StateT.bind, this, Except.bind]
+  simp [printVal, bind, StateT.bind, getHeap, get, getThe, MonadStateOf.get, StateT.get, pure, Except.pure, Except.bind,
+    StateT.pure, sprint, strFuel, objStr, ofOpt, emit, modify, modifyGet, MonadStateOf.modifyGet, StateT.modifyGet]
+
+/-! non-vacuity: a map holding a pointer to a struct whose field `Name` and method `Title` are reached by `x.item.name` /
+`x.item.title`, next to other entries -/
+open Pug.Data Pug.Props.C11P in
+example : Reach 3 (.map [("n", .num 1), ("item", .ptr (some (.struct [("Name", true, .str "<b>"), ("hidden", false, .str "s")] [("Title", .str "T")])))])
+    ["item", "name"] (.str "<b>") := by
+  refine @Reach.key 2 [("n", .num 1)] [] "item" _ ["name"] _ (by decide) (by decide) (Reach.ptr ?_)
+  have h1 : lowerFirst "Name" = "name" := by decide
+  have h2 : lowerFirst "Title" = "title" := by decide
+  exact @Reach.field 0 _ _ [] [("title", .str "T")] "name" (.str "<b>") [] _ (by simp [structEntries, h1, h2]) (by decide) (by decide)
+    (by decide) (Reach.here _)
 
 end Pug.Props.C11
